@@ -144,9 +144,50 @@ std::string bits_of(typename A::V const& v)
     return s;
 }
 
+/// subject strings of one configuration, built once
+template <typename A>
+struct Names {
+    std::string size, test, cindex, rbool, rnot, count, all, any, none, eq, op_not, to_string, to_ullong, to_ulong, op_and, op_or, op_xor;
+    Names()
+    {
+        auto const f = A::family() + "::";
+        size         = f + "size()";
+        test         = f + A::n_test();
+        cindex       = f + "operator[](pos) const";
+        rbool        = f + "reference::operator bool";
+        rnot         = f + "reference::operator~";
+        count        = f + "count()";
+        all          = f + "all()";
+        any          = f + "any()";
+        none         = f + "none()";
+        eq           = f + "operator==";
+        op_not       = f + "operator~";
+        to_string    = f + "to_string(zero,one)";
+        to_ullong    = f + "to_ullong()";
+        to_ulong     = f + "to_ulong()";
+        op_and       = f + "operator&";
+        op_or        = f + "operator|";
+        op_xor       = f + "operator^";
+    }
+    static Names const& get()
+    {
+        static Names const n;
+        return n;
+    }
+};
+
+/// compare first, build strings only on disagreement
+template <typename G, typename W>
+inline bool check(Cx& cx, std::string const& subj, char const* cls, char const* what, G const& got, W const& want)
+{
+    if (got == want) { return true; }
+    cx.fail("C17", subj, cls, cat(what, ": tetl=", got, " model=", want));
+    return false;
+}
+
 /// content of the implementation object equals the model (every bit + count)
 template <typename A>
-bool same(Cx& cx, std::string const& subj, std::string const& cls, typename A::V const& v, typename A::M const& m, char const* what)
+bool same(Cx& cx, std::string const& subj, char const* cls, typename A::V const& v, typename A::M const& m, char const* what)
 {
     for (std::size_t i = 0; i < A::N; ++i) {
         if (A::test(v, i) != m[i]) {
@@ -162,11 +203,27 @@ bool same(Cx& cx, std::string const& subj, std::string const& cls, typename A::V
 }
 
 template <typename Str>
+bool str_equal(Str const& s, std::string const& want)
+{
+    if (s.size() != want.size()) { return false; }
+    for (std::size_t i = 0; i < want.size(); ++i) {
+        if (static_cast<unsigned long>(s[i]) != static_cast<unsigned long>(static_cast<unsigned char>(want[i]))) { return false; }
+    }
+    return true;
+}
+
+template <typename Str>
 std::string narrow(Str const& s)
 {
     std::string o;
     for (std::size_t i = 0; i < s.size(); ++i) { o += char(s[i]); }
     return o;
+}
+
+template <typename Str>
+void check_str(Cx& cx, std::string const& subj, char const* cls, char const* what, Str const& got, std::string const& want)
+{
+    if (!str_equal(got, want)) { cx.fail("C17", subj, cls, cat(what, ": tetl=\"", narrow(got), "\" (size ", got.size(), ") model=\"", want, "\"")); }
 }
 
 /// every observer of the statement, tetl against std
@@ -175,61 +232,62 @@ void observe_all(Cx& cx, typename A::V& v, typename A::M const& m)
 {
     using V          = typename A::V;
     constexpr auto N = A::N;
-    auto const fam   = A::family();
+    auto const& nm   = Names<A>::get();
     V const& cv      = v;
-    auto const pc    = std::string(A::padcls());
+    auto const* pc   = A::padcls();
 
-    cx.eq("C17", fam + "::size()", "general", "size()", cv.size(), N);
+    check(cx, nm.size, "general", "size()", cv.size(), N);
     for (std::size_t i = 0; i < N; ++i) {
-        auto const c = std::string(A::poscls(i));
-        bool const w = m[i];
-        cx.eq("C17", cat(fam, "::", A::n_test()), c, "test", A::test(cv, i), w);
+        auto const* c = A::poscls(i);
+        bool const w  = m[i];
+        check(cx, nm.test, c, "test", A::test(cv, i), w);
         bool const ci = cv[i];
-        cx.eq("C17", fam + "::operator[](pos) const", c, "const operator[]", ci, w);
+        check(cx, nm.cindex, c, "const operator[]", ci, w);
         bool const ri = static_cast<bool>(v[i]);
-        cx.eq("C17", fam + "::reference::operator bool", c, "bool(b[pos])", ri, w);
+        check(cx, nm.rbool, c, "bool(b[pos])", ri, w);
         bool const ni = ~v[i];
-        cx.eq("C17", fam + "::reference::operator~", c, "~b[pos]", ni, !w);
+        check(cx, nm.rnot, c, "~b[pos]", ni, !w);
     }
-    cx.eq("C17", fam + "::count()", pc, "count()", cv.count(), m.count());
-    cx.eq("C17", fam + "::all()", pc, "all()", cv.all(), m.all());
-    cx.eq("C17", fam + "::any()", pc, "any()", cv.any(), m.any());
-    cx.eq("C17", fam + "::none()", pc, "none()", cv.none(), m.none());
+    check(cx, nm.count, pc, "count()", cv.count(), m.count());
+    check(cx, nm.all, pc, "all()", cv.all(), m.all());
+    check(cx, nm.any, pc, "any()", cv.any(), m.any());
+    check(cx, nm.none, pc, "none()", cv.none(), m.none());
     {
         V copy(cv);
-        cx.eq("C17", fam + "::operator==", "copy", "b == copy of b", copy == cv, true);
-        cx.eq("C17", fam + "::operator==", "copy", "b != copy of b", copy != cv, false);
-        cx.eq("C17", fam + "::operator==", "self", "b == b", cv == cv, true);
+        check(cx, nm.eq, "copy", "b == copy of b", copy == cv, true);
+        check(cx, nm.eq, "copy", "b != copy of b", copy != cv, false);
+        check(cx, nm.eq, "self", "b == b", cv == cv, true);
         // a value built bit by bit from the model must compare equal whatever the history of v was
         V fresh;
         for (std::size_t i = 0; i < N; ++i) {
             if (m[i]) { A::set_default(fresh, i); }
         }
-        cx.eq("C17", fam + "::operator==", pc, "b == same value rebuilt bit by bit", cv == fresh, true);
-        cx.eq("C17", fam + "::operator==", pc, "rebuilt == b", fresh == cv, true);
+        check(cx, nm.eq, pc, "b == same value rebuilt bit by bit", cv == fresh, true);
+        check(cx, nm.eq, pc, "rebuilt == b", fresh == cv, true);
     }
     if constexpr (!A::basic) {
         {
-            V const inv = ~cv;
+            V const inv   = ~cv;
             auto const mi = ~m;
-            same<A>(cx, "bitset::operator~", pc, inv, mi, "~b");
-            cx.eq("C17", "bitset::operator~", pc, "(~b).all()", inv.all(), mi.all());
-            cx.eq("C17", "bitset::operator~", pc, "(~b).none()", inv.none(), mi.none());
-            same<A>(cx, "bitset::operator~", pc, cv, m, "b after ~b");
+            same<A>(cx, nm.op_not, pc, inv, mi, "~b");
+            check(cx, nm.op_not, pc, "(~b).all()", inv.all(), mi.all());
+            check(cx, nm.op_not, pc, "(~b).none()", inv.none(), mi.none());
+            same<A>(cx, nm.op_not, pc, cv, m, "b after ~b");
         }
         {
-            auto const s = cv.template to_string<N>();
-            cx.eq("C17", "bitset::to_string(zero,one)", "default_chars", "to_string<N>()", std::string(s.data(), s.size()), m.to_string());
+            auto const want = m.to_string();
+            auto const s    = cv.template to_string<N>();
+            check_str(cx, nm.to_string, "default_chars", "to_string<N>()", s, want);
             auto const t = cv.template to_string<N + 5>('o', 'X');
-            cx.eq("C17", "bitset::to_string(zero,one)", "custom_chars", "to_string<N+5>('o','X')", std::string(t.data(), t.size()), m.to_string('o', 'X'));
+            check_str(cx, nm.to_string, "custom_chars", "to_string<N+5>('o','X')", t, m.to_string('o', 'X'));
             auto const u = cv.template to_string<N + 1>('_');
-            cx.eq("C17", "bitset::to_string(zero,one)", "custom_zero", "to_string<N+1>('_')", std::string(u.data(), u.size()), m.to_string('_'));
+            check_str(cx, nm.to_string, "custom_zero", "to_string<N+1>('_')", u, m.to_string('_'));
             auto const w = cv.template to_string<N, wchar_t>(L'.', L'#');
-            cx.eq("C17", "bitset::to_string(zero,one)", "wchar_t", "to_string<N,wchar_t>(L'.',L'#')", narrow(w), m.to_string('.', '#'));
+            check_str(cx, nm.to_string, "wchar_t", "to_string<N,wchar_t>(L'.',L'#')", w, m.to_string('.', '#'));
         }
         if constexpr (N <= 64) {
-            cx.eq("C17", "bitset::to_ullong()", pc, "to_ullong()", cv.to_ullong(), m.to_ullong());
-            cx.eq("C17", "bitset::to_ulong()", pc, "to_ulong()", cv.to_ulong(), m.to_ulong());
+            check(cx, nm.to_ullong, pc, "to_ullong()", cv.to_ullong(), m.to_ullong());
+            check(cx, nm.to_ulong, pc, "to_ulong()", cv.to_ulong(), m.to_ulong());
         }
     }
 }
@@ -239,6 +297,35 @@ void observe_all(Cx& cx, typename A::V& v, typename A::M const& m)
 // -----------------------------------------------------------------------------------------
 template <typename A>
 std::vector<int> edge_positions()
+{
+    std::set<int> e;
+    auto add = [&](long p) {
+        if (p >= 0 && p < long(A::N)) { e.insert(int(p)); }
+    };
+    add(0);
+    add(1);
+    add(long(A::N) - 2);
+    add(long(A::N) - 1);
+    for (std::size_t w = A::wb; w <= A::N + 1; w += A::wb) {
+        add(long(w) - 1);
+        add(long(w));
+        add(long(w) + 1);
+    }
+    // a few positions away from every edge
+    add(2);
+    add(long(A::N) / 2);
+    add(long(A::N) - 3);
+    if (A::wb > 16) {
+        add(7);
+        add(8);
+        add(9);
+    }
+    return {e.begin(), e.end()};
+}
+
+/// word-edge positions only (seeds)
+template <typename A>
+std::vector<int> seed_positions()
 {
     std::set<int> e;
     auto add = [&](long p) {
@@ -271,7 +358,7 @@ std::vector<typename A::M> seed_values()
     M ones;
     ones.set();
     push(ones);
-    for (int p : edge_positions<A>()) {
+    for (int p : seed_positions<A>()) {
         M x;
         x.set(std::size_t(p));
         push(x);
@@ -367,11 +454,23 @@ struct BitsetSys {
     std::string name() const { return A::name(); }
     std::string family() const { return A::family(); }
 
+    mutable std::vector<std::string> subject_cache;
+    std::string const& cached_subject(Action const& a) const
+    {
+        if (subject_cache.empty()) {
+            for (int k = 0; k <= k_pure; ++k) {
+                subject_cache.push_back(subject(Action{k, 0, 0, 0}));
+            }
+            subject_cache.push_back(A::family() + "::set()"); // the all-ones seed
+        }
+        if (a.k == k_seed && seeds[std::size_t(a.a)].all()) { return subject_cache.back(); }
+        return subject_cache[std::size_t(a.k)];
+    }
     std::string subject(Action const& a) const
     {
         auto const f = A::family() + "::";
         switch (a.k) {
-        case k_seed: return f + (seeds[std::size_t(a.a)].all() ? "set()" : cat(A::basic ? "unchecked_set(pos)" : "set(pos)"));
+        case k_seed: return f + ((std::size_t(a.a) < seeds.size() && seeds[std::size_t(a.a)].all()) ? "set()" : (A::basic ? "unchecked_set(pos)" : "set(pos)"));
         case k_ctor_ull: return f + A::family() + "(unsigned long long)";
         case k_set_all: return f + "set()";
         case k_reset_all: return f + "reset()";
@@ -392,7 +491,7 @@ struct BitsetSys {
         default: return f + "?";
         }
     }
-    std::string cls(Action const& a) const
+    char const* cls(Action const& a) const
     {
         switch (a.k) {
         case k_set_i:
@@ -401,7 +500,7 @@ struct BitsetSys {
         case k_flip_i:
         case k_ref_bool:
         case k_ref_flip: return A::poscls(std::size_t(a.a));
-        case k_ref_ref: return a.a == a.b ? std::string("self") : std::string(A::poscls(std::size_t(a.a)));
+        case k_ref_ref: return a.a == a.b ? "self" : A::poscls(std::size_t(a.a));
         case k_ctor_ull:
             return wider<N>(a.v) ? "value_wider_than_bitset" : A::padcls();
         default: return A::padcls();
@@ -473,9 +572,10 @@ struct BitsetSys {
     {
         V& v            = *s.v;
         M& m            = s.m;
-        auto const subj = subject(a);
-        auto const c    = cls(a);
-        auto const i    = std::size_t(a.a);
+        auto const& subj = cached_subject(a);
+        auto const* c    = cls(a);
+        auto const i     = std::size_t(a.a);
+        auto const& nm   = Names<A>::get();
         s.depth += 1;
         auto returns_self = [&](V& ret) {
             if (&ret != &v) { cx.fail("C17", subj, "return", "did not return *this"); }
@@ -542,15 +642,14 @@ struct BitsetSys {
             V const r1 = x & y;
             V const r2 = x | y;
             V const r3 = x ^ y;
-            same<A>(cx, A::family() + "::operator&", c, r1, m & p->m, "b & other");
-            same<A>(cx, A::family() + "::operator|", c, r2, m | p->m, "b | other");
-            same<A>(cx, A::family() + "::operator^", c, r3, m ^ p->m, "b ^ other");
-            cx.eq("C17", A::family() + "::operator==", c, "b == other", x == y, m == p->m);
-            cx.eq("C17", A::family() + "::operator==", c, "b != other", x != y, m != p->m);
+            same<A>(cx, nm.op_and, c, r1, m & p->m, "b & other");
+            same<A>(cx, nm.op_or, c, r2, m | p->m, "b | other");
+            same<A>(cx, nm.op_xor, c, r3, m ^ p->m, "b ^ other");
+            check(cx, nm.eq, c, "b == other", x == y, m == p->m);
+            check(cx, nm.eq, c, "b != other", x != y, m != p->m);
             // derived values must behave like any other value (padding stays clean)
-            cx.eq("C17", A::family() + "::operator^", c, "(b ^ other).count()", r3.count(), (m ^ p->m).count());
-            cx.eq("C17", A::family() + "::operator|", c, "(b | other).all()", r2.all(), (m | p->m).all());
-            cx.eq("C17", A::family() + "::operator&", c, "(b & other).none()", r1.none(), (m & p->m).none());
+            check(cx, nm.op_or, c, "(b | other).all()", r2.all(), (m | p->m).all());
+            check(cx, nm.op_and, c, "(b & other).none()", r1.none(), (m & p->m).none());
             break;
         }
         default: break;
@@ -615,10 +714,10 @@ void depth_job(mc::Reporter& r, int quickDepth, int thoroughDepth)
 // -----------------------------------------------------------------------------------------
 // E2 sweeps
 // -----------------------------------------------------------------------------------------
-template <typename F>
-void run_case(mc::Reporter& r, std::string const& subject, std::string const& cls, std::function<std::string()> describe, F&& f)
+template <typename D, typename F>
+void run_case(mc::Reporter& r, std::string const& subject, char const* cls, D const& describe, F&& f)
 {
-    Cx cx{r, std::move(describe)};
+    Cx cx{r, std::cref(describe)};
     auto const san0 = mc::san_hits();
     mc::Trap t      = mc::guarded([&] { f(cx); });
     r.count("evaluations");
@@ -660,7 +759,7 @@ void sweep_ull(mc::Reporter& r)
     }
     auto const subj = cat(A::family(), "::", A::family(), "(unsigned long long)");
     for (auto const val : vals) {
-        std::string const cls = wider<A::N>(val) ? "value_wider_than_bitset" : A::padcls();
+        char const* const cls = wider<A::N>(val) ? "value_wider_than_bitset" : A::padcls();
         run_case(r, subj, cls, [&] { return cat(A::name(), "(", hex(val), "ULL)"); }, [&](Cx& cx) {
             V v(val);
             M m(val);
@@ -685,22 +784,14 @@ void sweep_positions(mc::Reporter& r)
         return s;
     }();
     auto const f = A::family() + "::";
+    static char const* const names[] = {"set(pos)", "set(pos,false)", "set(pos,true)", "reset(pos)", "flip(pos)", "b[pos]=false", "b[pos]=true", "b[pos].flip()"};
+    std::string const subjects[8]    = {f + (A::basic ? "unchecked_set(pos)" : "set(pos)"), f + A::n_set(), f + A::n_set(), f + A::n_reset(), f + A::n_flip(),
+           f + "reference::operator=(bool)", f + "reference::operator=(bool)", f + "reference::flip()"};
     for (auto const& seed : seeds) {
         for (std::size_t i = 0; i < A::N; ++i) {
-            auto const c = std::string(A::poscls(i));
+            auto const* c = A::poscls(i);
             for (int op = 0; op < 8; ++op) {
-                static char const* const names[] = {"set(pos)", "set(pos,false)", "set(pos,true)", "reset(pos)", "flip(pos)", "b[pos]=false", "b[pos]=true", "b[pos].flip()"};
-                std::string subj;
-                switch (op) {
-                case 0: subj = f + (A::basic ? "unchecked_set(pos)" : "set(pos)"); break;
-                case 1:
-                case 2: subj = f + A::n_set(); break;
-                case 3: subj = f + A::n_reset(); break;
-                case 4: subj = f + A::n_flip(); break;
-                case 5:
-                case 6: subj = f + "reference::operator=(bool)"; break;
-                default: subj = f + "reference::flip()"; break;
-                }
+                auto const& subj = subjects[op];
                 run_case(r, subj, c, [&] { return cat(A::name(), ": seed ", seed.to_string(), " => ", names[op], " pos=", i); }, [&](Cx& cx) {
                     V v;
                     build_value<A>(v, seed);
@@ -732,7 +823,7 @@ void sweep_positions(mc::Reporter& r)
         if (seed.count() < 2 || seed.all()) { continue; }
         for (std::size_t i = 0; i < A::N; ++i) {
             for (std::size_t j = 0; j < A::N; ++j) {
-                auto const c = i == j ? std::string("self") : std::string(A::poscls(i));
+                auto const* c = i == j ? "self" : A::poscls(i);
                 run_case(r, subj, c, [&] { return cat(A::name(), ": seed ", seed.to_string(), " => b[", i, "] = b[", j, "]"); }, [&](Cx& cx) {
                     V v;
                     build_value<A>(v, seed);
@@ -740,8 +831,8 @@ void sweep_positions(mc::Reporter& r)
                     v[i] = v[j];
                     m[i] = m[j];
                     same<A>(cx, subj, c, v, m, "after the operation");
-                    cx.eq("C17", subj, c, "all()", v.all(), m.all());
-                    cx.eq("C17", subj, c, "none()", v.none(), m.none());
+                    check(cx, subj, c, "all()", v.all(), m.all());
+                    check(cx, subj, c, "none()", v.none(), m.none());
                 });
                 if (seed[i] != seed[j]) { r.count("distinct_nontrivial"); }
             }
@@ -766,17 +857,14 @@ inline std::string show_n(std::size_t n) { return n == std::size_t(-1) ? std::st
 /// class of a string-constructor case, computed from the arguments only: is the character window
 /// that the constructor uses a palindrome (bit order cannot matter), and how is it selected
 template <typename Char>
-std::string string_cls(std::basic_string<Char> const& s, std::size_t pos, std::size_t n)
+char const* string_cls(std::basic_string<Char> const& s, std::size_t pos, std::size_t n)
 {
     auto const rlen = std::min(n, s.size() - pos);
     bool pal        = true;
     for (std::size_t i = 0; i < rlen / 2; ++i) {
         if (s[pos + i] != s[pos + rlen - 1 - i]) { pal = false; }
     }
-    std::string c = rlen == 0 ? "window_empty" : (pal ? "window_palindrome" : "window_not_palindrome");
-    if (pos != 0) { c += "+pos>0"; }
-    if (pos + rlen < s.size()) { c += "+n<rest"; }
-    return c;
+    return rlen == 0 ? "window_empty" : (pal ? "window_palindrome" : "window_not_palindrome");
 }
 
 template <std::size_t N, typename Char>
@@ -799,14 +887,21 @@ void string_cases(mc::Reporter& r, std::vector<std::basic_string<Char>> const& t
             for (std::size_t pos = 0; pos <= L; ++pos) {
                 if (!allWindows && pos != 0 && pos != 2) { continue; }
                 std::vector<std::size_t> ns;
-                for (std::size_t n = 0; n <= L - pos + 1; ++n) { ns.push_back(n); }
+                if (allWindows) {
+                    for (std::size_t n = 0; n <= L - pos + 1; ++n) { ns.push_back(n); }
+                } else {
+                    // the rest of the string, exactly N characters, one less, nothing
+                    ns.push_back(L - pos);
+                    if (N < L - pos) { ns.push_back(N); }
+                    if (N >= 1) { ns.push_back(N - 1); }
+                    ns.push_back(0);
+                }
                 ns.push_back(npos);
                 for (auto n : ns) {
                     auto const rlen = std::min(n, L - pos);
                     if (rlen > N) { continue; } // tetl documents len <= size() as a precondition (std ignores the excess)
-                    if (!allWindows && !(n == npos || n == rlen)) { continue; }
                     bool const dflt = cs.zero == Char('0') && cs.one == Char('1');
-                    auto const cls  = string_cls(s, pos, n) + (dflt ? "" : "+custom_chars");
+                    auto const* cls = string_cls(s, pos, n);
                     M const m       = M(s, pos, n, cs.zero, cs.one);
                     auto const show = [&] { return cat("bitset<", N, ">(", cn, " ", mc::show_chars(s.begin(), s.end()), ", pos=", pos, ", n=", show_n(n), ", zero/one=", cs.label, ")"); };
                     // (1) string_view, all five arguments
@@ -823,21 +918,21 @@ void string_cases(mc::Reporter& r, std::vector<std::basic_string<Char>> const& t
                         if (!blk.intact()) { r.violation("C02", subj, "canary", show(), "wrote outside the source characters"); }
                         // defaulted arguments
                         if (dflt && n == npos) {
-                            run_case(r, subj, cls + "+defaults", show, [&](Cx& cx) {
+                            run_case(r, subj, cls, show, [&](Cx& cx) {
                                 SV const sv(blk.data(), L);
                                 if (pos == 0) {
                                     V v(sv);
-                                    same<A>(cx, subj, cls + "+defaults", v, m, "bitset(sv)");
+                                    same<A>(cx, subj, cls, v, m, "bitset(sv)");
                                 }
                                 V w(sv, pos);
-                                same<A>(cx, subj, cls + "+defaults", w, m, "bitset(sv,pos)");
+                                same<A>(cx, subj, cls, w, m, "bitset(sv,pos)");
                             });
                         }
                         if (dflt) {
-                            run_case(r, subj, cls + "+defaults", show, [&](Cx& cx) {
+                            run_case(r, subj, cls, show, [&](Cx& cx) {
                                 SV const sv(blk.data(), L);
                                 V w(sv, pos, n);
-                                same<A>(cx, subj, cls + "+defaults", w, m, "bitset(sv,pos,n)");
+                                same<A>(cx, subj, cls, w, m, "bitset(sv,pos,n)");
                             });
                         }
                     }
@@ -845,7 +940,7 @@ void string_cases(mc::Reporter& r, std::vector<std::basic_string<Char>> const& t
                     if (pos == 0 && (n == npos || n <= L)) {
                         auto const subj  = std::string("bitset::bitset(char const*,n,zero,one)");
                         bool const term  = n == npos; // n == npos needs the terminator, otherwise exactly n characters exist
-                        if (term && (cs.zero == Char(0) || cs.one == Char(0))) { continue; }
+                        if (!(term && (cs.zero == Char(0) || cs.one == Char(0)))) {
                         std::size_t const have = term ? L + 1 : n;
                         mc::GuardedBlock<Char> blk(have);
                         std::copy(s.begin(), s.begin() + std::ptrdiff_t(term ? L : n), blk.data());
@@ -856,14 +951,15 @@ void string_cases(mc::Reporter& r, std::vector<std::basic_string<Char>> const& t
                             if (same<A>(cx, subj, cls, v, m2, "constructed value")) { observe_all<A>(cx, v, m2); }
                             if (dflt) {
                                 V w(static_cast<Char const*>(blk.data()), n);
-                                same<A>(cx, subj, cls + "+defaults", w, m2, "bitset(str,n)");
+                                same<A>(cx, subj, cls, w, m2, "bitset(str,n)");
                                 if (term) {
                                     V x(static_cast<Char const*>(blk.data()));
-                                    same<A>(cx, subj, cls + "+defaults", x, m2, "bitset(str)");
+                                    same<A>(cx, subj, cls, x, m2, "bitset(str)");
                                 }
                             }
                         });
                         if (!blk.intact()) { r.violation("C02", subj, "canary", show(), "wrote outside the source characters"); }
+                        }
                     }
                     if (!m.none() && !m.all()) { r.count("distinct_nontrivial"); }
                     if (r.wants_sample()) { r.sample(show()); }
@@ -956,11 +1052,11 @@ void add_basic(mc::Main& m)
     add_closure<7, W>(m, both);
     add_closure<8, W>(m, both);
     add_closure<9, W>(m, both);
-    add_depth<15, W>(m, 2, 3);
-    add_depth<16, W>(m, 2, 3);
-    add_depth<17, W>(m, 2, 3);
-    add_depth<33, W>(m, 2, 3);
-    add_depth<65, W>(m, 2, 3);
+    add_depth<15, W>(m, 2, 4);
+    add_depth<16, W>(m, 2, 4);
+    add_depth<17, W>(m, 2, 4);
+    add_depth<33, W>(m, 2, 4);
+    add_depth<65, W>(m, 2, 4);
 }
 
 } // namespace
@@ -979,17 +1075,17 @@ int main(int argc, char** argv)
     add_closure<12, void>(m, thorough_only);
 #endif
 #if !defined(MC_PART) || MC_PART == 2
-    add_depth<31, void>(m, 2, 3);
-    add_depth<32, void>(m, 2, 3);
-    add_depth<33, void>(m, 2, 3);
-    add_depth<63, void>(m, 2, 3);
-    add_depth<64, void>(m, 2, 3);
+    add_depth<31, void>(m, 4, 6);
+    add_depth<32, void>(m, 4, 6);
+    add_depth<33, void>(m, 4, 6);
+    add_depth<63, void>(m, 4, 6);
+    add_depth<64, void>(m, 4, 6);
 #endif
 #if !defined(MC_PART) || MC_PART == 3
-    add_depth<65, void>(m, 2, 3);
-    add_depth<127, void>(m, 2, 3);
-    add_depth<128, void>(m, 2, 3);
-    add_depth<129, void>(m, 2, 3);
+    add_depth<65, void>(m, 4, 6);
+    add_depth<127, void>(m, 4, 6);
+    add_depth<128, void>(m, 4, 6);
+    add_depth<129, void>(m, 4, 6);
 #endif
 #if !defined(MC_PART) || MC_PART == 4
     add_basic<std::uint8_t>(m);
@@ -1002,6 +1098,26 @@ int main(int argc, char** argv)
 #endif
 #if !defined(MC_PART) || MC_PART == 7
     add_basic<std::uint64_t>(m);
+#endif
+    // reduced configuration sets for the sanitizer build of the quick tier (the full set is compiled
+    // with sanitizers in the thorough tier; compile time of the instrumented build is the limit)
+#if defined(MC_PART) && MC_PART == 11
+    add_closure<1, void>(m, both);
+    add_closure<8, void>(m, both);
+    add_closure<9, void>(m, both);
+    add_depth<64, void>(m, 4, 6);
+    add_depth<65, void>(m, 4, 6);
+    add_depth<129, void>(m, 4, 6);
+#endif
+#if defined(MC_PART) && MC_PART == 12
+    add_closure<1, std::uint8_t>(m, both);
+    add_closure<9, std::uint8_t>(m, both);
+    add_depth<17, std::uint8_t>(m, 2, 4);
+    add_depth<65, std::uint8_t>(m, 2, 4);
+    add_depth<17, std::uint16_t>(m, 2, 4);
+    add_closure<9, std::uint32_t>(m, both);
+    add_depth<33, std::uint32_t>(m, 2, 4);
+    add_depth<65, std::uint64_t>(m, 2, 4);
 #endif
     return m.run();
 }
